@@ -2,14 +2,14 @@
    continuation-passing semantics, for every core body, every continuation stack, every resumption. *)
 From Coq Require Import List ZArith Bool Lia.
 Import ListNotations.
-From Verif.C09 Require Import Model.
+From Verif.C09 Require Import Model ProofsMachStep.
 
 (* "the machine started in configuration c unfolds to the interaction tree t" *)
 Inductive mtree : config -> itree -> Prop :=
 | mt_tau c c' t : mstep c = OTau c' -> mtree c' t -> mtree c t
 | mt_emit c ev c' t : mstep c = OEmit ev c' -> mtree c' t -> mtree c (TEmit ev t)
-| mt_yield c v w r K k :
-    mstep c = OYield v w r K -> (forall i, mtree (resume_cfg w r K i) (k i)) -> mtree c (TYield v w r k)
+| mt_yield c v w rk r K k :
+    mstep c = OYield v w rk r K -> (forall i, mtree (resume_cfg rk r K i) (k i)) -> mtree c (TYield v w r k)
 | mt_reent c cm kc k : mstep c = OReent cm kc -> (forall a, mtree (kc a) (k a)) -> mtree c (TReent cm k)
 | mt_done c v r : mstep c = OFinDone v r -> mtree c (TDone v r)
 | mt_threw c e r : mstep c = OFinThrew e r -> mtree c (TThrew e r).
@@ -26,8 +26,17 @@ Definition ARel (K : list frame) (H : handlers) : Prop :=
 Definition discardable (f : frame) : bool :=
   match f with
   | FCatch _ | FFinally _ | FLoop _ _ _ _ => false
+  | FForOfB _ _ _ | FCloseB _ _ | FStarB _ _ _ | FForOfS _ _ _ _ _ | FStarS _ _ _ _ => false
   | _ => true
   end.
+
+(* no boundary: the stack of a generator that is not an inner generator of a running for-of / yield* *)
+Definition nb (K : list frame) : Prop := split_b K = None.
+Lemma nb_push f K : is_boundary f = false -> nb K -> nb (f :: K).
+Proof. unfold nb. intros Hf HK. simpl. rewrite Hf, HK. reflexivity. Qed.
+Lemma nb_nil : nb []. Proof. reflexivity. Qed.
+Local Hint Extern 1 (nb (_ :: _)) => apply nb_push; [reflexivity|] : core.
+Local Hint Resolve nb_nil : core.
 
 Lemma arel_push f K H : discardable f = true -> ARel K H -> ARel (f :: K) H.
 Proof.
@@ -40,6 +49,103 @@ Proof.
   intros r. repeat split; intros; try (apply mt_threw; reflexivity); apply mt_done; reflexivity.
 Qed.
 
+
+(* ---------- embedding: an inner generator's segment on top of a boundary ---------- *)
+Definition kdone : env -> itree := fun r => TDone VUndef r.
+
+Definition PSb (body : stmt) : Prop :=
+  forall K H k, nb K -> ARel K H -> (forall r, mtree (CNorm, r, K) (k r)) ->
+  forall r, mtree (CS body, r, K) (dS false body r H k).
+
+(* if the machine with segment Kin alone unfolds to t (the inner generator's own tree), then the same segment placed
+   on a boundary frame of an outer generator unfolds to what the outer generator makes of t *)
+Definition EmbAll (ctl : control) (r : env) (Kin : list frame) (t : itree) : Prop :=
+  (forall x body ro Kout H k, PSb body -> nb Kout -> ARel Kout H -> (forall r', mtree (CNorm, r', Kout) (k r')) ->
+     mtree (ctl, r, Kin ++ FForOfB x body ro :: Kout)
+           (forof_tree x (fun r0 H0 k0 => dS false body r0 H0 k0) H k t ro)) /\
+  (forall a ro Kout ok err, mtree (close_ok a, ro, Kout) ok -> (forall e, mtree (close_err a e, ro, Kout) (err e)) ->
+     mtree (ctl, r, Kin ++ FCloseB a ro :: Kout) (close_tree t ok err)) /\
+  (forall retmode wants ro Kout H k, nb Kout -> ARel Kout H -> (forall v, mtree (CVal v, ro, Kout) (k v)) ->
+     mtree (ctl, r, Kin ++ FStarB retmode wants ro :: Kout) (deleg_tree wants ro H k retmode t)).
+
+Lemma embed_all : forall c t, mtree c t -> forall ctl r Kin, c = (ctl, r, Kin) -> EmbAll ctl r Kin t.
+Proof.
+  induction 1; intros ctl r0 Kin Ec; subst.
+  - (* tau *)
+    destruct c' as [[ctl' r'] K']. destruct (IHmtree _ _ _ eq_refl) as (I1 & I2 & I3).
+    repeat split; intros.
+    + eapply mt_tau; [apply step_ext_tau; eauto|]. simpl. apply I1; auto.
+    + eapply mt_tau; [apply step_ext_tau; eauto|]. simpl. apply I2; auto.
+    + eapply mt_tau; [apply step_ext_tau; eauto|]. simpl. apply I3; auto.
+  - (* emit *)
+    destruct c' as [[ctl' r'] K']. destruct (IHmtree _ _ _ eq_refl) as (I1 & I2 & I3).
+    repeat split; intros; simpl.
+    + eapply mt_emit; [apply step_ext_emit; eauto|]. simpl. apply I1; auto.
+    + eapply mt_emit; [apply step_ext_emit; eauto|]. simpl. apply I2; auto.
+    + eapply mt_emit; [apply step_ext_emit; eauto|]. simpl. apply I3; auto.
+  - (* yield: the segment is cut off and stored in the outer generator *)
+    apply step_yield_inv in H as (-> & -> & -> & Hnb).
+    assert (IH : forall i, EmbAll (CResume rk i) r0 Kin (k i)) by (intros i; apply (H1 i); reflexivity).
+    split; [|split].
+    + (* for-of: run the loop body with the yielded value *)
+      intros x body ro Kout Hh k0 HPS HN HA Hk0.
+      eapply mt_tau. { simpl. rewrite (split_b_none_app Kin (FForOfB x body ro) Kout Hnb eq_refl). reflexivity. }
+      simpl. apply HPS; auto.
+      * intros r'. repeat split; intros; simpl.
+        -- eapply mt_tau; [reflexivity|]. apply (proj1 (proj2 (IH (BReturn VUndef)))).
+           ++ simpl. apply (HA r').
+           ++ intros e0. simpl. apply (HA r').
+        -- eapply mt_tau; [reflexivity|]. apply (proj1 (proj2 (IH (BReturn VUndef)))).
+           ++ simpl. apply (HA r').
+           ++ intros e0. simpl. apply (HA r').
+        -- eapply mt_tau; [reflexivity|]. apply (proj1 (proj2 (IH (BReturn VUndef)))).
+           ++ simpl. apply Hk0.
+           ++ intros e0. simpl. apply (HA r').
+        -- eapply mt_tau; [reflexivity|]. apply (proj1 (IH (BNext VUndef))); auto.
+      * intros r'. eapply mt_tau; [reflexivity|]. apply (proj1 (IH (BNext VUndef))); auto.
+    + (* IteratorClose: return() answered an object that is not done *)
+      intros a ro Kout ok err Hok Herr.
+      eapply mt_tau. { simpl. rewrite (split_b_none_app Kin (FCloseB a ro) Kout Hnb eq_refl). reflexivity. }
+      simpl. assumption.
+    + (* yield*: the outer generator yields the same value; its resumption is forwarded *)
+      intros retmode wants ro Kout Hh k0 HN HA Hk0.
+      eapply mt_tau. { simpl. rewrite (split_b_none_app Kin (FStarB retmode wants ro) Kout Hnb eq_refl). reflexivity. }
+      simpl. eapply mt_yield.
+      { simpl. unfold nb in HN. rewrite HN. reflexivity. }
+      intros i. unfold resume_cfg.
+      destruct i; (eapply mt_tau; [reflexivity|]); apply (proj2 (proj2 (IH _))); auto.
+  - (* re-entrant call *)
+    split; [|split].
+    + intros x body ro Kout Hh k0 HPS HN HA Hk0. simpl.
+      destruct (step_ext_reent _ _ _ (FForOfB x body ro :: Kout) _ _ H) as (kc' & E & Ek).
+      eapply mt_reent; [exact E|]. intros a. rewrite Ek. destruct (kc a) as [[ctl' r'] K'] eqn:Ea.
+      simpl. apply (proj1 (H1 a _ _ _ Ea)); auto.
+    + intros a ro Kout ok err Hok Herr. simpl.
+      destruct (step_ext_reent _ _ _ (FCloseB a ro :: Kout) _ _ H) as (kc' & E & Ek).
+      eapply mt_reent; [exact E|]. intros a0. rewrite Ek. destruct (kc a0) as [[ctl' r'] K'] eqn:Ea.
+      simpl. apply (proj1 (proj2 (H1 a0 _ _ _ Ea))); auto.
+    + intros retmode wants ro Kout Hh k0 HN HA Hk0. simpl.
+      destruct (step_ext_reent _ _ _ (FStarB retmode wants ro :: Kout) _ _ H) as (kc' & E & Ek).
+      eapply mt_reent; [exact E|]. intros a. rewrite Ek. destruct (kc a) as [[ctl' r'] K'] eqn:Ea.
+      simpl. apply (proj2 (proj2 (H1 a _ _ _ Ea))); auto.
+  - (* the inner generator completed *)
+    apply step_done_inv in H as (-> & -> & Hc).
+    split; [|split].
+    + intros x body ro Kout Hh k0 HPS HN HA Hk0. simpl.
+      destruct Hc as [[-> ->]|[->|[[-> ->]|[-> ->]]]]; (eapply mt_tau; [reflexivity|]); auto.
+    + intros a ro Kout ok err Hok Herr. simpl.
+      destruct Hc as [[-> ->]|[->|[[-> ->]|[-> ->]]]]; (eapply mt_tau; [reflexivity|]); auto.
+    + intros retmode wants ro Kout Hh k0 HN HA Hk0. simpl.
+      destruct Hc as [[-> ->]|[->|[[-> ->]|[-> ->]]]]; (eapply mt_tau; [reflexivity|]);
+        destruct retmode; simpl; auto; apply (HA ro).
+  - (* the inner generator threw *)
+    apply step_threw_inv in H as (-> & -> & ->).
+    split; [|split].
+    + intros x body ro Kout Hh k0 HPS HN HA Hk0. simpl. eapply mt_tau; [reflexivity|]. apply (HA ro).
+    + intros a ro Kout ok err Hok Herr. simpl. eapply mt_tau; [reflexivity|]. auto.
+    + intros retmode wants ro Kout Hh k0 HN HA Hk0. simpl. eapply mt_tau; [reflexivity|]. apply (HA ro).
+Qed.
+
 Scheme exp_mind := Induction for exp Sort Prop
   with src_mind := Induction for src Sort Prop
   with stmt_mind := Induction for stmt Sort Prop.
@@ -47,92 +153,118 @@ Combined Scheme lang_mutind from exp_mind, src_mind, stmt_mind.
 
 Definition PE (e : exp) : Prop :=
   coreE e = true -> forall r K H k,
-    ARel K H -> (forall v, mtree (CVal v, r, K) (k v)) -> mtree (CE e, r, K) (dE false e r H k).
+    nb K -> ARel K H -> (forall v, mtree (CVal v, r, K) (k v)) -> mtree (CE e, r, K) (dE false e r H k).
 Definition PS (s : stmt) : Prop :=
   coreS s = true -> forall K H k,
-    ARel K H -> (forall r, mtree (CNorm, r, K) (k r)) -> forall r, mtree (CS s, r, K) (dS false s r H k).
+    nb K -> ARel K H -> (forall r, mtree (CNorm, r, K) (k r)) -> forall r, mtree (CS s, r, K) (dS false s r H k).
+Definition PSrc (s : src) : Prop :=
+  match s with SrcGen arg body => PE arg /\ PS body | _ => True end.
 
 Lemma binop_case (o : bop) (a b : exp) r K H (k : val -> itree) (kk : val -> val -> itree) :
   PE a -> PE b -> coreE a = true -> coreE b = true ->
-  ARel K H ->
+  nb K -> ARel K H ->
   (forall va vb, mtree (CVal vb, r, FBinR o va :: K) (kk va vb)) ->
   mtree (CE a, r, FBinL o b :: K) (dE false a r H (fun va => dE false b r H (fun vb => kk va vb))).
 Proof.
-  intros IHa IHb Ca Cb A Hk.
+  intros IHa IHb Ca Cb N A Hk.
   apply IHa; auto. { apply arel_push; auto. }
   intros va. eapply mt_tau; [reflexivity|].
   apply IHb; auto. apply arel_push; auto.
 Qed.
 
-Lemma binr_pure o va vb r K (k : val -> itree) :
-  fst (bop_apply o va vb) = None ->
-  mtree (CVal (snd (bop_apply o va vb)), r, K) (k (snd (bop_apply o va vb))) ->
-  mtree (CVal vb, r, FBinR o va :: K) (k (snd (bop_apply o va vb))).
+(* a plain yield of the generator whose stack is K (no boundary: it is not an inner generator here) *)
+Lemma plain_yield (v : val) (w : bool) (r : env) (K : list frame) (H : handlers) (k : val -> itree) :
+  nb K -> ARel K H -> (forall x : val, mtree ((if w then CVal x else CNorm), r, K) (k x)) ->
+  mtree (CYielding v w (RPlain w), r, K) (TYield v w r (fun i => resume_in i k H r)).
 Proof.
-  intros E M. eapply mt_tau; [|exact M]. simpl. destruct (bop_apply o va vb) as [ev res]. simpl in *. subst. reflexivity.
+  intros N A Hk. eapply mt_yield. { simpl. unfold nb in N. rewrite N. reflexivity. }
+  intros i. unfold resume_cfg. destruct (A r) as (At & Ar & _).
+  destruct i; simpl; (eapply mt_tau; [reflexivity|]); auto.
 Qed.
 
-Theorem machine_lang : (forall e, PE e) /\ (forall s : src, True) /\ (forall s, PS s).
+(* starting an inner generator on a boundary *)
+Lemma start_inner gbody a :
+  PS gbody -> coreS gbody = true ->
+  EmbAll (CS gbody) (upd 0 a env0) [] (dS false gbody (upd 0 a env0) gen_handlers kdone).
 Proof.
-  apply lang_mutind; unfold PE, PS; try (intros; exact I).
-  - (* EConst *) intros z _ r K H k A Hk. simpl. eapply mt_tau; [reflexivity|]. apply Hk.
-  - (* EVar *) intros x _ r K H k A Hk. simpl. eapply mt_tau; [reflexivity|]. apply Hk.
-  - (* EAdd *) intros a IHa b IHb C r K H k A Hk. simpl in C. apply andb_prop in C as [Ca Cb]. simpl.
+  intros IH C. eapply embed_all; [|reflexivity].
+  apply IH; auto. { apply arel_nil. } intros r. apply mt_done. reflexivity.
+Qed.
+
+Theorem machine_lang : (forall e, PE e) /\ (forall s, PSrc s) /\ (forall s, PS s).
+Proof.
+  apply lang_mutind; unfold PE, PS, PSrc; try (intros; exact I).
+  - (* EConst *) intros z _ r K H k N A Hk. simpl. eapply mt_tau; [reflexivity|]. apply Hk.
+  - (* EVar *) intros x _ r K H k N A Hk. simpl. eapply mt_tau; [reflexivity|]. apply Hk.
+  - (* EAdd *) intros a IHa b IHb C r K H k N A Hk. simpl in C. apply andb_prop in C as [Ca Cb]. simpl.
     eapply mt_tau; [reflexivity|].
     apply (binop_case BAdd a b r K H k (fun va vb => k (vadd va vb))); auto.
     intros va vb. eapply mt_tau; [reflexivity|]. apply Hk.
-  - (* ECall *) intros a IHa b IHb C r K H k A Hk. simpl in C. apply andb_prop in C as [Ca Cb]. simpl.
+  - (* ECall *) intros a IHa b IHb C r K H k N A Hk. simpl in C. apply andb_prop in C as [Ca Cb]. simpl.
     eapply mt_tau; [reflexivity|].
     apply (binop_case BCall a b r K H k (fun va vb => TEmit (VArr [VInt 77; va; vb]) (k (vcall va vb)))); auto.
     intros va vb. eapply mt_emit; [reflexivity|]. apply Hk.
-  - (* ECallSpread *) intros a IHa b IHb C r K H k A Hk. simpl in C. apply andb_prop in C as [Ca Cb]. simpl.
+  - (* ECallSpread *) intros a IHa b IHb C r K H k N A Hk. simpl in C. apply andb_prop in C as [Ca Cb]. simpl.
     eapply mt_tau; [reflexivity|].
     apply (binop_case BCall a b r K H k (fun va vb => TEmit (VArr [VInt 77; va; vb]) (k (vcall va vb)))); auto.
     intros va vb. eapply mt_emit; [reflexivity|]. apply Hk.
-  - (* EArr *) intros a IHa b IHb C r K H k A Hk. simpl in C. apply andb_prop in C as [Ca Cb]. simpl.
+  - (* EArr *) intros a IHa b IHb C r K H k N A Hk. simpl in C. apply andb_prop in C as [Ca Cb]. simpl.
     eapply mt_tau; [reflexivity|].
     apply (binop_case BArr a b r K H k (fun va vb => k (VArr [va; vb]))); auto.
     intros va vb. eapply mt_tau; [reflexivity|]. apply Hk.
-  - (* EObj *) intros a IHa b IHb C r K H k A Hk. simpl in C. apply andb_prop in C as [Ca Cb]. simpl.
+  - (* EObj *) intros a IHa b IHb C r K H k N A Hk. simpl in C. apply andb_prop in C as [Ca Cb]. simpl.
     eapply mt_tau; [reflexivity|].
     apply (binop_case BObj a b r K H k (fun va vb => k (VObj [va; vb]))); auto.
     intros va vb. eapply mt_tau; [reflexivity|]. apply Hk.
-  - (* ETpl *) intros a IHa b IHb C r K H k A Hk. simpl in C. apply andb_prop in C as [Ca Cb]. simpl.
+  - (* ETpl *) intros a IHa b IHb C r K H k N A Hk. simpl in C. apply andb_prop in C as [Ca Cb]. simpl.
     eapply mt_tau; [reflexivity|].
     apply (binop_case BTpl a b r K H k (fun va vb => k (VTpl [va; vb]))); auto.
     intros va vb. eapply mt_tau; [reflexivity|]. apply Hk.
-  - (* EYield *) intros a IHa C r K H k A Hk. simpl in C. simpl.
+  - (* EYield *) intros a IHa C r K H k N A Hk. simpl in C. simpl.
     eapply mt_tau; [reflexivity|].
     apply IHa; auto. { apply arel_push; auto. }
-    intros v. eapply mt_yield; [reflexivity|].
-    intros i. destruct (A r) as (At & Ar & _). destruct i; simpl; auto.
-  - (* EAwaitBad *) intros z _ r K H k A Hk. simpl. eapply mt_emit; [reflexivity|]. apply (A r).
-  - (* EYieldStar *) intros s _ C. discriminate.
-  - (* SSkip *) intros _ K H k A Hk r. simpl. eapply mt_tau; [reflexivity|]. apply Hk.
-  - (* SExpr *) intros e IHe C K H k A Hk r. simpl in *. eapply mt_tau; [reflexivity|].
+    intros v. eapply mt_tau; [reflexivity|]. apply (plain_yield v true r K H k); auto.
+  - (* EAwaitBad *) intros z _ r K H k N A Hk. simpl. eapply mt_emit; [reflexivity|]. apply (A r).
+  - (* EYieldStar *) intros s IHs C r K H k N A Hk. simpl in C. destruct s as [arg gbody|h|]; try discriminate.
+    + destruct IHs as [IHarg IHg]. simpl in C. apply andb_prop in C as [Ca Cg]. simpl.
+      eapply mt_tau; [reflexivity|].
+      apply IHarg; auto. { apply arel_push; auto. }
+      intros a. eapply mt_tau; [reflexivity|].
+      apply (proj2 (proj2 (start_inner gbody a IHg Cg))); auto.
+    + simpl. eapply mt_tau; [reflexivity|]. apply (A r).
+  - (* SrcGen *) intros arg IHarg body IHb. split; auto.
+  - (* SSkip *) intros _ K H k N A Hk r. simpl. eapply mt_tau; [reflexivity|]. apply Hk.
+  - (* SExpr *) intros e IHe C K H k N A Hk r. simpl in *. eapply mt_tau; [reflexivity|].
     apply IHe; auto. { apply arel_push; auto. } intros v. eapply mt_tau; [reflexivity|]. apply Hk.
-  - (* SYield *) intros e IHe C K H k A Hk r. simpl in *. eapply mt_tau; [reflexivity|].
+  - (* SYield *) intros e IHe C K H k N A Hk r. simpl in *. eapply mt_tau; [reflexivity|].
     apply IHe; auto. { apply arel_push; auto. }
-    intros v. eapply mt_yield; [reflexivity|].
-    intros i. destruct (A r) as (At & Ar & _). destruct i; simpl; auto.
-  - (* SYieldStar *) intros s _ C. discriminate.
-  - (* SAssign *) intros x e IHe C K H k A Hk r. simpl in *. eapply mt_tau; [reflexivity|].
+    intros v. eapply mt_tau; [reflexivity|]. apply (plain_yield v false r K H (fun _ => k r)); auto.
+  - (* SYieldStar *) intros s IHs C K H k N A Hk r. simpl in C. destruct s as [arg gbody|h|]; try discriminate.
+    + destruct IHs as [IHarg IHg]. simpl in C. apply andb_prop in C as [Ca Cg]. simpl.
+      eapply mt_tau; [reflexivity|].
+      apply IHarg; auto. { apply arel_push; auto. apply arel_push; auto. }
+      intros a. eapply mt_tau; [reflexivity|].
+      apply (proj2 (proj2 (start_inner gbody a IHg Cg))); auto.
+      * apply arel_push; auto.
+      * intros v. eapply mt_tau; [reflexivity|]. apply Hk.
+    + simpl. eapply mt_tau; [reflexivity|]. apply (A r).
+  - (* SAssign *) intros x e IHe C K H k N A Hk r. simpl in *. eapply mt_tau; [reflexivity|].
     apply IHe; auto. { apply arel_push; auto. } intros v. eapply mt_tau; [reflexivity|]. apply Hk.
-  - (* SDestr *) intros x e IHe C K H k A Hk r. simpl in *. eapply mt_tau; [reflexivity|].
+  - (* SDestr *) intros x e IHe C K H k N A Hk r. simpl in *. eapply mt_tau; [reflexivity|].
     apply IHe; auto. { apply arel_push; auto. } intros v. eapply mt_tau; [reflexivity|]. apply Hk.
-  - (* SLog *) intros e IHe C K H k A Hk r. simpl in *. eapply mt_tau; [reflexivity|].
+  - (* SLog *) intros e IHe C K H k N A Hk r. simpl in *. eapply mt_tau; [reflexivity|].
     apply IHe; auto. { apply arel_push; auto. } intros v. eapply mt_emit; [reflexivity|]. apply Hk.
-  - (* SLogLocals *) intros _ K H k A Hk r. simpl. eapply mt_emit; [reflexivity|]. apply Hk.
-  - (* SSeq *) intros a IHa b IHb C K H k A Hk r. simpl in C. apply andb_prop in C as [Ca Cb]. simpl.
+  - (* SLogLocals *) intros _ K H k N A Hk r. simpl. eapply mt_emit; [reflexivity|]. apply Hk.
+  - (* SSeq *) intros a IHa b IHb C K H k N A Hk r. simpl in C. apply andb_prop in C as [Ca Cb]. simpl.
     eapply mt_tau; [reflexivity|].
     apply IHa; auto. { apply arel_push; auto. }
     intros r'. eapply mt_tau; [reflexivity|]. apply IHb; auto.
-  - (* SIf *) intros c IHc a IHa b IHb C K H k A Hk r. simpl in C.
+  - (* SIf *) intros c IHc a IHa b IHb C K H k N A Hk r. simpl in C.
     apply andb_prop in C as [C Cb]. apply andb_prop in C as [Cc Ca]. simpl.
     eapply mt_tau; [reflexivity|].
     apply IHc; auto. { apply arel_push; auto. }
     intros v. eapply mt_tau; [reflexivity|]. destruct (truthy v); [apply IHa | apply IHb]; auto.
-  - (* SRepeat *) intros n x body IHb C K H k A Hk r. simpl in C. simpl.
+  - (* SRepeat *) intros n x body IHb C K H k N A Hk r. simpl in C. simpl.
     eapply mt_tau; [reflexivity|].
     match goal with
     | |- mtree _ (?f n r) =>
@@ -147,7 +279,7 @@ Proof.
       * eapply mt_tau; [reflexivity|]. apply Ar.
       * eapply mt_tau; [reflexivity|]. apply Hk.
       * eapply mt_tau; [reflexivity|]. apply IHm.
-  - (* STryCatch *) intros b IHb c IHc C K H k A Hk r. simpl in C. apply andb_prop in C as [Cb Cc]. simpl.
+  - (* STryCatch *) intros b IHb c IHc C K H k N A Hk r. simpl in C. apply andb_prop in C as [Cb Cc]. simpl.
     eapply mt_tau; [reflexivity|].
     apply IHb; auto.
     + intros r'. destruct (A r') as (At & Ar & Ab & Ac). repeat split; intros; simpl.
@@ -156,7 +288,7 @@ Proof.
       * eapply mt_tau; [reflexivity|]. apply Ab.
       * eapply mt_tau; [reflexivity|]. apply Ac.
     + intros r'. eapply mt_tau; [reflexivity|]. apply Hk.
-  - (* STryFinally *) intros b IHb f IHf C K H k A Hk r. simpl in C. apply andb_prop in C as [Cb Cf]. simpl.
+  - (* STryFinally *) intros b IHb f IHf C K H k N A Hk r. simpl in C. apply andb_prop in C as [Cb Cf]. simpl.
     eapply mt_tau; [reflexivity|].
     assert (Afin : forall a, ARel (FFinCompl a :: K) H) by (intros a; apply arel_push; auto).
     apply IHb; auto.
@@ -166,7 +298,7 @@ Proof.
       * eapply mt_tau; [reflexivity|]. apply IHf; auto. intros r''. eapply mt_tau; [reflexivity|]. apply (A r'').
       * eapply mt_tau; [reflexivity|]. apply IHf; auto. intros r''. eapply mt_tau; [reflexivity|]. apply (A r'').
     + intros r'. eapply mt_tau; [reflexivity|]. apply IHf; auto. intros r''. eapply mt_tau; [reflexivity|]. apply Hk.
-  - (* STryCF *) intros b IHb c IHc f IHf C K H k A Hk r. simpl in C.
+  - (* STryCF *) intros b IHb c IHc f IHf C K H k N A Hk r. simpl in C.
     apply andb_prop in C as [C Cf]. apply andb_prop in C as [Cb Cc]. simpl.
     eapply mt_tau; [reflexivity|].
     assert (Afin : forall a, ARel (FFinCompl a :: K) H) by (intros a; apply arel_push; auto).
@@ -186,14 +318,22 @@ Proof.
       * eapply mt_tau; [reflexivity|]. apply Ab.
       * eapply mt_tau; [reflexivity|]. apply Ac.
     + intros r'. eapply mt_tau; [reflexivity|]. apply KF.
-  - (* SReturn *) intros e IHe C K H k A Hk r. simpl in *. eapply mt_tau; [reflexivity|].
+  - (* SReturn *) intros e IHe C K H k N A Hk r. simpl in *. eapply mt_tau; [reflexivity|].
     apply IHe; auto. { apply arel_push; auto. } intros v. eapply mt_tau; [reflexivity|]. apply (A r).
-  - (* SThrow *) intros e IHe C K H k A Hk r. simpl in *. eapply mt_tau; [reflexivity|].
+  - (* SThrow *) intros e IHe C K H k N A Hk r. simpl in *. eapply mt_tau; [reflexivity|].
     apply IHe; auto. { apply arel_push; auto. } intros v. eapply mt_tau; [reflexivity|]. apply (A r).
-  - (* SBreak *) intros _ K H k A Hk r. simpl. eapply mt_tau; [reflexivity|]. apply (A r).
-  - (* SContinue *) intros _ K H k A Hk r. simpl. eapply mt_tau; [reflexivity|]. apply (A r).
-  - (* SForOf *) intros x s _ b _ C. discriminate.
-  - (* SReenter *) intros c _ K H k A Hk r. simpl. eapply mt_reent; [reflexivity|].
+  - (* SBreak *) intros _ K H k N A Hk r. simpl. eapply mt_tau; [reflexivity|]. apply (A r).
+  - (* SContinue *) intros _ K H k N A Hk r. simpl. eapply mt_tau; [reflexivity|]. apply (A r).
+  - (* SForOf *) intros x s IHs body IHb C K H k N A Hk r. simpl in C. apply andb_prop in C as [Cs Cb].
+    destruct s as [arg gbody|h|]; try discriminate.
+    + destruct IHs as [IHarg IHg]. simpl in Cs. apply andb_prop in Cs as [Ca Cg]. simpl.
+      eapply mt_tau; [reflexivity|].
+      apply IHarg; auto. { apply arel_push; auto. }
+      intros a. eapply mt_tau; [reflexivity|].
+      apply (proj1 (start_inner gbody a IHg Cg)); auto.
+      intros K0 H0 k0 N0 A0 Hk0 r0. apply IHb; auto.
+    + simpl. eapply mt_tau; [reflexivity|]. apply (A r).
+  - (* SReenter *) intros c _ K H k N A Hk r. simpl. eapply mt_reent; [reflexivity|].
     intros a. eapply mt_emit; [reflexivity|]. destruct a; apply Hk.
 Qed.
 
@@ -201,7 +341,7 @@ Qed.
 Theorem machine_matches_direct : forall s, coreS s = true ->
   mtree (mload s) (dS false s env0 gen_handlers (fun r => TDone VUndef r)).
 Proof.
-  intros s C. apply (proj2 (proj2 machine_lang) s C [] gen_handlers).
+  intros s C. apply (proj2 (proj2 machine_lang) s C [] gen_handlers); auto.
   - apply arel_nil.
   - intros r. apply mt_done. reflexivity.
 Qed.
@@ -209,7 +349,7 @@ Qed.
 (* ---------- from the unfolding relation to driver histories ---------- *)
 Definition leaf_rel (m : mleaf) (t : tleaf) : Prop :=
   match m, t with
-  | MLYield v w r K, TLYield v' w' r' k => v = v' /\ w = w' /\ r = r' /\ forall i, mtree (resume_cfg w r K i) (k i)
+  | MLYield v w rk r K, TLYield v' w' r' k => v = v' /\ w = w' /\ r = r' /\ forall i, mtree (resume_cfg rk r K i) (k i)
   | MLDone v r, TLDone v' r' => v = v' /\ r = r'
   | MLThrew e r, TLThrew e' r' => e = e' /\ r = r'
   | _, _ => False
@@ -233,7 +373,7 @@ Proof.
   - destruct IHmtree as (n & l & ml & E & E1 & E2). exists (S n), l, ml. simpl. rewrite H. auto.
   - destruct IHmtree as (n & l & ml & E & E1 & E2). exists (S n), (ev :: l), ml. simpl. rewrite H, E.
     destruct (trun t) as [l' lf']. simpl in *. subst. auto.
-  - exists 1, [], (MLYield v w r K). simpl. rewrite H. repeat split; auto.
+  - exists 1, [], (MLYield v w rk r K). simpl. rewrite H. repeat split; auto.
   - destruct (H1 (CErr VTypeErr)) as (n & l & ml & E & E1 & E2). exists (S n), l, ml. simpl. rewrite H. auto.
   - exists 1, [], (MLDone v r). simpl. rewrite H. repeat split; auto.
   - exists 1, [], (MLThrew e r). simpl. rewrite H. repeat split; auto.
@@ -245,7 +385,7 @@ Proof.
   - destruct (mrun fuel c) as [[l lf]|] eqn:E0; [|discriminate]. rewrite (mrun_mono _ _ _ E0 fuel' L). exact E.
   - destruct (mrun fuel c) as [[l lf]|] eqn:E0; [|discriminate]. rewrite (mrun_mono _ _ _ E0 fuel' L).
     destruct lf; auto.
-    destruct (mwalk fuel h (resume_cfg w r K i)) eqn:E1; [|discriminate].
+    destruct (mwalk fuel h (resume_cfg rk r K i)) eqn:E1; [|discriminate].
     rewrite (IH _ _ _ E1 fuel' L). exact E.
 Qed.
 
@@ -291,3 +431,30 @@ Example resume_example :
   = Some [WYield [] (VInt 0) [VInt 5; VInt 0; VInt 0; VUndef];
           WDone [VArr [VInt 80; VInt 5; VInt 0; VInt 0]] (VInt 7) [VInt 5; VInt 0; VInt 0; VUndef]].
 Proof. split; vm_compute; reflexivity. Qed.
+
+(* non-vacuity with inner generators: a for-of over a generator that delegates (yield* ) to another generator holding a
+   pending finally; the loop is left by break (IteratorClose runs return() through both inner generators), and the
+   outer generator then delegates itself.  The machine (segments cut off at boundaries and stored in frames) and the
+   direct semantics agree on the whole history, including a throw() forwarded through the yield*. *)
+Definition ex_inner2 : stmt := STryFinally (SSeq (SYield (EConst 1)) (SYield (EConst 2))) (SLog (EConst 99)).
+Definition ex_inner1 : stmt := SSeq (SYieldStar (SrcGen (EConst 0) ex_inner2)) (SYield (EConst 3)).
+Definition ex_body2 : stmt :=
+  SSeq (SForOf 1 (SrcGen (EConst 0) ex_inner1) (SSeq (SYield (EVar 1)) (SIf (EVar 2) SBreak (SAssign 2 (EConst 1)))))
+       (STryCatch (SAssign 0 (EYieldStar (SrcGen (EConst 7) (SSeq (SYield (EVar 0)) (SReturn (EConst 5))))))
+                  (SLog (EVar 3))).
+Example resume_example_inner :
+  coreS ex_body2 = true /\
+  forall h, In h [[BNext (VInt 10); BNext (VInt 11); BNext (VInt 12); BNext (VInt 13)];
+                  [BNext (VInt 10); BNext (VInt 11); BThrow (VInt 900); BNext (VInt 13)];
+                  [BNext (VInt 10); BReturn (VInt 800)]] ->
+    mwalk 400 h (mload ex_body2) = Some (twalk h (dS false ex_body2 env0 gen_handlers (fun r => TDone VUndef r))).
+Proof.
+  split; [reflexivity|]. intros h [<-|[<-|[<-|[]]]]; vm_compute; reflexivity.
+Qed.
+Example resume_example_inner_value :
+  mwalk 400 [BNext (VInt 10); BNext (VInt 11); BThrow (VInt 900); BNext (VInt 13)] (mload ex_body2)
+  = Some [WYield [] (VInt 1) [VInt 0; VInt 1; VInt 0; VUndef];
+          WYield [] (VInt 2) [VInt 0; VInt 2; VInt 1; VUndef];
+          WYield [VInt 99] (VInt 7) [VInt 0; VInt 2; VInt 1; VUndef];
+          WDone [VInt 900] VUndef [VInt 0; VInt 2; VInt 1; VInt 900]].
+Proof. vm_compute. reflexivity. Qed.
